@@ -4,6 +4,7 @@ package verifharness
 
 import (
 	"fmt"
+	"math"
 	"strings"
 
 	"github.com/cockroachdb/redact"
@@ -15,7 +16,18 @@ type C14Spec struct {
 	StarW   int       `json:"starW,omitempty"`
 	StarP   int       `json:"starP,omitempty"`
 	Operand string    `json:"operand"`
+	// StarKind: the Go kind of the '*' width operand ("" = int): uint64max,
+	// uint64big (2^64-1000), uintmax, uintptrmax, int64min, uint8
+	StarKind string `json:"starKind,omitempty"`
+	// Sib: if set, the probe / forwarder is the second element of a slice
+	// whose first element is this sibling (printed before it under the same
+	// directive): zero, int, float, string, nil, bool
+	Sib string `json:"sib,omitempty"`
 }
+
+var c14Siblings = map[string]interface{}{"zero": 0, "int": 7, "float": 2.5, "string": "ab", "nil": nil, "bool": true, "uzero": uint8(0)}
+var c14SiblingNames = []string{"zero", "int", "float", "string", "nil", "bool", "uzero"}
+var c14StarKinds = []string{"uint64max", "uint64big", "uintmax", "uintptrmax", "int64min", "uint8"}
 
 func init() {
 	register("C14Fwd", "C14", func() interface{} { return &C14Spec{} }, func(s interface{}) Result { return checkC14(s.(*C14Spec)) })
@@ -131,12 +143,39 @@ var c14OperandNames = []string{"int", "uint", "float", "complex", "string", "byt
 func (s *C14Spec) args(x interface{}) []interface{} {
 	var a []interface{}
 	if s.Dir.Width == "*" {
-		a = append(a, s.StarW)
+		switch s.StarKind {
+		case "uint64max":
+			a = append(a, uint64(math.MaxUint64))
+		case "uint64big":
+			a = append(a, uint64(math.MaxUint64-999))
+		case "uintmax":
+			a = append(a, uint(math.MaxUint))
+		case "uintptrmax":
+			a = append(a, ^uintptr(0))
+		case "int64min":
+			a = append(a, int64(math.MinInt64))
+		case "uint8":
+			a = append(a, uint8(s.StarW))
+		default:
+			a = append(a, s.StarW)
+		}
 	}
 	if s.Dir.Prec == ".*" {
 		a = append(a, s.StarP)
 	}
+	if s.Sib != "" {
+		x = []interface{}{c14Siblings[s.Sib], x}
+	}
 	return append(a, x)
+}
+
+// comparable form of a state for the comparison between fmt and redact:
+// with '-' the '0' flag is ignored (and reported differently by Go releases)
+func (t stateTuple) crossForm() stateTuple {
+	if t.minus {
+		t.zero = false
+	}
+	return t
 }
 
 func checkC14(s *C14Spec) Result {
@@ -149,7 +188,8 @@ func checkC14(s *C14Spec) Result {
 		return res
 	}
 	// (R) round trip of the observed state, under fmt's State and under redact's printer
-	for _, useRedact := range []bool{false, true} {
+	var seen [2]stateTuple
+	for ri, useRedact := range []bool{false, true} {
 		name := "fmt.State"
 		if useRedact {
 			name = "redact's printer"
@@ -171,6 +211,7 @@ func checkC14(s *C14Spec) Result {
 			return fail("under %s: %d probe records, want 2 (MakeFormat's format %v did not dispatch the inner probe once)", name, len(rec), rec)
 		}
 		t1, t2 := rec[0].tuple, rec[1].tuple
+		seen[ri] = t1
 		if t1 != t2 {
 			return fail("under %s: the active directive is %v, MakeFormat returned %s, which re-creates %v", name, t1, qs(rec[0].format), t2)
 		}
@@ -186,8 +227,24 @@ func checkC14(s *C14Spec) Result {
 	if !dispatched {
 		return res
 	}
+	// (D) the state redact's printer reports is the one fmt reports
+	if seen[0].crossForm() != seen[1].crossForm() {
+		return fail("the Formatter sees %v under fmt and %v under redact", seen[0], seen[1])
+	}
+	if s.Sib != "" {
+		res.Classes = append(res.Classes, "after-sibling")
+	}
+	if s.StarKind != "" {
+		res.Classes = append(res.Classes, "star-kind:"+s.StarKind)
+	}
 	// (P) wrappers and forwarding formatters print like the direct call
 	x := c14Operands[s.Operand]
+	if s.Sib != "" && (s.Operand == "nil" || s.Operand == "bytes" || s.Operand == "pointer") {
+		// (renderings that depend on the nesting depth: a nil element prints
+		// as <nil> under every verb, a nested []byte is "[]uint8" in Go
+		// syntax; a forwarder prints its value at depth 0)
+		return res
+	}
 	direct := fmt.Sprintf(d, s.args(x)...)
 	if got := fmt.Sprintf(d, s.args(redact.Safe(x))...); got != direct {
 		return fail("fmt prints %s for Safe(%s) but %s for the value itself", qs(got), s.Operand, qs(direct))
